@@ -195,6 +195,11 @@ pub struct HandshakeOracle {
     connects_checked: u64,
     forged_seen: u64,
     refused_checked: u64,
+    /// creation time of each client's current incarnation, and the time it last stepped
+    created_at: BTreeMap<usize, u64>,
+    /// per client: (last client step, last server step, largest gap between consecutive steps of
+    /// either) during the first 15 s of its current incarnation
+    stepping: BTreeMap<usize, (u64, u64, u64)>,
 }
 
 impl HandshakeOracle {
@@ -216,6 +221,8 @@ impl HandshakeOracle {
             connects_checked: 0,
             forged_seen: 0,
             refused_checked: 0,
+            created_at: BTreeMap::new(),
+            stepping: BTreeMap::new(),
         }
     }
 
@@ -253,6 +260,27 @@ impl Oracle for HandshakeOracle {
                 self.client_hc.remove(ep);
                 self.connects_client.remove(ep);
                 self.errors_client.remove(ep);
+                self.created_at.insert(*ep, cx.now_ns);
+                self.stepping.insert(*ep, (cx.now_ns, cx.now_ns, 0));
+            }
+            Rec::Call { op: Op::Destroy { ep }, skipped: false, .. } => {
+                self.created_at.remove(ep);
+            }
+            Rec::Call { op: Op::Step { ep }, skipped: false, .. } => {
+                let now = cx.now_ns;
+                for (c, st) in self.stepping.iter_mut() {
+                    let Some(&t0) = self.created_at.get(c) else { continue };
+                    if now > t0 + 15_000_000_000 {
+                        continue;
+                    }
+                    if c == ep {
+                        st.2 = st.2.max(now - st.0);
+                        st.0 = now;
+                    } else if matches!(&cx.plan.endpoints[*c].kind, EndpointKind::Client { server, .. } if server == ep) {
+                        st.2 = st.2.max(now - st.1);
+                        st.1 = now;
+                    }
+                }
             }
             Rec::Wire(w) => {
                 match (w.bytes.first().copied(), &cx.plan.endpoints[w.src].kind) {
@@ -356,6 +384,27 @@ impl Oracle for HandshakeOracle {
                 }
             }
             Rec::End { .. } => {
+                // on a link that eventually lets handshake frames through, every compatible client
+                // ends up connected on both sides (retries of SYN, SYN-ACK and ACK complete it)
+                if cx.plan.param("handshake_link_clean", 0.0) != 0.0 {
+                    for (ep, e) in cx.plan.endpoints.iter().enumerate() {
+                        let EndpointKind::Client { server, .. } = &e.kind else { continue };
+                        if cx.plan.param(&format!("expect_error_ep{}", ep), -1.0) >= 0.0 {
+                            continue;
+                        }
+                        // only clients (and servers) that were created and kept stepping for 15 s
+                        let Some(&t0) = self.created_at.get(&ep) else { continue };
+                        let Some(&(lc, ls, gap)) = self.stepping.get(&ep) else { continue };
+                        if lc < t0 + 14_000_000_000 || ls < t0 + 14_000_000_000 || gap > 1_000_000_000 {
+                            continue;
+                        }
+                        let c_ok = self.connects_client.get(&ep).cloned().unwrap_or(0) == 1;
+                        let s_ok = self.connects_server.get(&(*server, cx.addrs[ep])).cloned().unwrap_or(0) >= 1;
+                        if !c_ok || !s_ok {
+                            return viol(prop, "handshake_incomplete", format!("client {}: Connect reported by the client: {}, by the server: {} although every handshake frame could be retried on a link that lost at most the first three datagrams of each direction (client error: {:?})", ep, c_ok, s_ok, self.errors_client.get(&ep).map(|k| err_name(*k))), 0);
+                        }
+                    }
+                }
                 // incompatible / wrong-version / refused clients: matching error, never Connect
                 for (ep, e) in cx.plan.endpoints.iter().enumerate() {
                     if !matches!(e.kind, EndpointKind::Client { .. }) {
@@ -553,11 +602,12 @@ pub struct AmplificationOracle {
     max_ratio_permille: u64,
     undersized_sent: u64,
     kinds: BTreeSet<u8>,
+    hdr_inclusive_exceeded: u64,
 }
 
 impl AmplificationOracle {
     pub fn new(property: &'static str) -> Self {
-        Self { property, per_addr: BTreeMap::new(), checks: 0, replies: 0, max_ratio_permille: 0, undersized_sent: 0, kinds: BTreeSet::new() }
+        Self { property, per_addr: BTreeMap::new(), checks: 0, replies: 0, max_ratio_permille: 0, undersized_sent: 0, kinds: BTreeSet::new(), hdr_inclusive_exceeded: 0 }
     }
 }
 
@@ -604,7 +654,12 @@ impl Oracle for AmplificationOracle {
                 // payload bytes, and bytes including the 28-byte UDP/IP header per datagram
                 let plain = e.from_server < e.to_server;
                 let with_hdr = e.from_server + 28 * e.n_from_server < e.to_server + 28 * e.n_to_server;
-                if !plain || !with_hdr {
+                // the property counts bytes; the header-inclusive balance is reported as a
+                // measurement only
+                if !with_hdr {
+                    self.hdr_inclusive_exceeded += 1;
+                }
+                if !plain {
                     let d = format!(
                         "server {} has sent {} bytes in {} datagrams to the unverified address {} and received {} bytes in {} datagrams from it (with UDP/IP headers: {} vs {})",
                         w.src, e.from_server, e.n_from_server, w.dst_addr, e.to_server, e.n_to_server, e.from_server + 28 * e.n_from_server, e.to_server + 28 * e.n_to_server);
@@ -620,6 +675,7 @@ impl Oracle for AmplificationOracle {
         let mut a = |k: &str, v: u64| *out.entry(k.to_string()).or_insert(0) += v;
         a("server_datagrams_to_unverified_addresses_checked", self.checks);
         a("undersized_syns_delivered", self.undersized_sent);
+        a("replies_exceeding_the_header_inclusive_balance_only", self.hdr_inclusive_exceeded);
         a("frame_types_sent_by_unverified_addresses", self.kinds.len() as u64);
         let m = out.entry("max_out_in_ratio_permille".to_string()).or_insert(0);
         *m = (*m).max(self.max_ratio_permille);
